@@ -26,6 +26,7 @@
  Ru units         : lengths configured with a unit entry are only used through convert_length(value, same record's length_units).
  Rv verbose       : blocks guarded by the verbose flag only report; the design does not depend on the logging flag.
  Re for-each      : loops that act on every item are never left early (break / return).
+ Rn arg roles     : a variable named like a parameter of the callee is handed to that parameter (no exchanged roles).
 """
 import ast
 
@@ -502,6 +503,15 @@ def re_foreach(ctx):
     ctx.need('Re.for-each', 3)
 
 
+def rn_arg_roles(ctx):
+    """Rn: a variable named like a parameter of the callee is handed to that parameter (no exchanged roles such as
+    f(to_degree, from_degree) for def f(from_degree, to_degree)); calls to resolved package functions, canonical form"""
+    from .common import arg_roles_rule
+    from ..memo import scope_funcs
+    n = arg_roles_rule(ctx, 'Rn.arg-roles', scope_funcs(ctx.repo, 'C08'), 'elements would be linked or placed in the opposite order')
+    ctx.check('Rn.arg-roles', 'argument / parameter name scan', True, 'C08|arg-roles-scan', '', f'{n} argument(s) named like another parameter judged')
+
+
 from ..memo import rule_for as _memo_rule
 
 RULES_MEMO = ('Rm.memo', _memo_rule('C08', 'a structural decision taken for another element would be reused'))
@@ -512,4 +522,4 @@ from ..presence import rule_for as _presence_rule
 RULES_PRESENCE = ('Rp.presence', _presence_rule('C08', 'a legal zero would be read as missing'))
 
 RULES = [('R1.surgery', r1_surgery), ('R2.edge-weight', r2_weights), ('R3.completeness', r3_completeness), ('R4.split', r4_split),
-         ('R5.order', r5_order), ('R6.every-oms', r6_every_oms), RULES_MEMO, RULES_PRESENCE, ('R7.span-walk', r7_span_walk), ('Ru.units', ru_units), ('Rv.verbose-pure', rv_verbose), ('Re.for-each', re_foreach)]
+         ('R5.order', r5_order), ('R6.every-oms', r6_every_oms), RULES_MEMO, RULES_PRESENCE, ('R7.span-walk', r7_span_walk), ('Ru.units', ru_units), ('Rv.verbose-pure', rv_verbose), ('Re.for-each', re_foreach), ('Rn.arg-roles', rn_arg_roles)]
